@@ -47,14 +47,15 @@ NoPrior == P(NoT, NoT, NoT)
 
 (* ------------------------------ comparison ------------------------------ *)
 Ints   == {IntT(0), IntT(1), IntT(-1), IntT(2), IntE(1, 62), IntE(-1, 63), IntE(1, 40), IntT(1073741823)}
+(* (2^64, -2^64, 2^70: whole-valued floats outside the i64 range) *)
 Flts   == {Flt(0, 0), FltS("-0"), Flt(1, 0), Flt(-1, 0), Flt(1, -1), Flt(3, -1), Flt(-3, -1),
-           Flt(1, 62), Flt(1, -20), Flt(5, -2), Flt(1, 40)}
+           Flt(1, 62), Flt(1, -20), Flt(5, -2), Flt(1, 40), Flt(1, 64), Flt(-1, 64), Flt(1, 70), Flt(-1, 63), Flt(1, 63)}
 Atoms  == {a, b, Atom("ab"), Atom("B"), Atom("a b"), Atom("{U+00E9}"), Atom("{U+65E5}"), Atom("z"),
            Atom("10"), Atom("a{U+00E9}")}
 NonC   == {Y, Cx("f", <<a>>), Lst(<<a>>), Anon, EmptyList}
 Oprs   == Ints \cup Flts \cup Atoms \cup NonC
 OprsQ  == {IntT(0), IntT(1), IntT(-1), IntE(1, 62), IntE(-1, 63), Flt(0, 0), FltS("-0"), Flt(1, 0),
-           Flt(3, -1), Flt(-3, -1), Flt(1, 62), a, b, Atom("ab"), Atom("B"), Atom("a b"), Atom("{U+00E9}"),
+           Flt(3, -1), Flt(-3, -1), Flt(1, 62), Flt(-1, 64), Flt(1, 63), Flt(-1, 63), a, b, Atom("ab"), Atom("B"), Atom("a b"), Atom("{U+00E9}"),
            Atom("10"), Y, Cx("f", <<a>>), Anon}
 CmpOprs == IF Thorough THEN Oprs ELSE OprsQ
 CmpCalls ==
